@@ -292,11 +292,29 @@ func genC12(t *rapid.T) *Case {
 	default:
 		spec.Ops = append(spec.Ops, Op{Kind: "RequireSandboxOnIFrame", ValRe: -1, Vals: drawSandbox(t)})
 	}
+	// script is one of the five elements: it can only be emitted under AllowUnsafe. The raw text of
+	// script / style elements then holds media elements that must not come out as markup unforced.
+	unsafe := rapid.IntRange(0, 5).Draw(t, "unsafe") == 0
+	if unsafe {
+		spec.Ops = append(spec.Ops, Op{Kind: "AllowUnsafe", B: true, ValRe: -1})
+		for _, o := range []Op{
+			{Kind: "AllowElements", Names: []string{"style"}, ValRe: -1},
+			{Kind: "AllowElementsContent", Names: []string{"script", "style"}, ValRe: -1},
+		} {
+			if rapid.Bool().Draw(t, "unsafeop") {
+				spec.Ops = append(spec.Ops, o)
+			}
+		}
+	}
 	var sb strings.Builder
 	n := rapid.IntRange(1, 4).Draw(t, "nel")
 	for i := 0; i < n; i++ {
 		el := rapid.SampledFrom(els).Draw(t, "el")
 		var attrs []string
+		if unsafe && rapid.IntRange(0, 2).Draw(t, "wrap") == 0 {
+			w := rapid.SampledFrom([]string{"<script>", "<script/>", "<style>", "<style/>", "<script src=x>", "<STYLE >"}).Draw(t, "wrapper")
+			sb.WriteString(w + `<img src="http://example.com/x" crossorigin="use-credentials"><iframe src="http://example.com/x" sandbox="allow-nothing allow-scripts"></iframe>` + map[bool]string{true: "</script>", false: "</style>"}[strings.Contains(strings.ToLower(w), "script")])
+		}
 		k := rapid.IntRange(0, 4).Draw(t, "nattr")
 		for j := 0; j < k; j++ {
 			switch rapid.IntRange(0, 3).Draw(t, "which") {
@@ -307,7 +325,8 @@ func genC12(t *rapid.T) *Case {
 				v := ""
 				for x := 0; x < nt; x++ {
 					if x > 0 {
-						v += rapid.SampledFrom([]string{" ", "  ", "\t", "\n", " ", "\f"}).Draw(t, "sbsep")
+						// the last five are NOT HTML white space: they glue two keywords into one unknown token
+						v += rapid.SampledFrom([]string{" ", "  ", "\t", "\n", " ", "\f", " ", " ", "\u00a0", "\v", "\u2003", "\u0085", "\u3000"}).Draw(t, "sbsep")
 					}
 					v += rapid.SampledFrom(sbToks).Draw(t, "sbtok")
 				}
@@ -351,10 +370,18 @@ func checkC12(c *Case, r *Rec) error {
 	out, _ := sanitizeSpec(c.Spec, in)
 	affected := 0
 	inputHasSandbox := false
+	inputSandboxToks := map[string]bool{} // tokens of every sandbox attribute of the input, split as HTML splits them
 	for _, tk := range tokenize(in) {
 		if isOpenTag(tk) {
 			if _, ok := firstAttr(tk.Attr, "sandbox"); ok {
 				inputHasSandbox = true
+			}
+			for _, a := range tk.Attr {
+				if a.Key == "sandbox" {
+					for _, f := range htmlFields(a.Val) {
+						inputSandboxToks[f] = true
+					}
+				}
 			}
 		}
 	}
@@ -393,6 +420,9 @@ func checkC12(c *Case, r *Rec) error {
 						for _, f := range htmlFields(a.Val) {
 							if !m.sandbox[f] {
 								return violation(out, "C12: sandbox token %q is not among the values the policy listed", f)
+							}
+							if !inputSandboxToks[f] {
+								return violation(out, "C12: sandbox token %q is granted by the output but is not a token of any sandbox attribute of the input (unlisted tokens are to be removed, not split into listed ones)", f)
 							}
 							if seen[f] {
 								return violation(out, "C12: sandbox token %q is duplicated", f)
